@@ -181,7 +181,7 @@ Fixpoint has_dup_pair (l : list edge) : bool :=
   | e :: l' => existsb (fun e' => Nat.eqb (esrc e) (esrc e') && Nat.eqb (etgt e) (etgt e')) l' || has_dup_pair l'
   end.
 (* model switch for fixes/proposed_fix_C09_D18c.diff (false = the code as it is): the unbuffered edges get their source index back *)
-Definition fixed_D18c : bool := false.
+Definition fixed_D18c : bool := true.
 Definition crashes (c : circuit) : bool :=
   negb fixed_D18c && negb (cvec c) &&
   existsb (fun e => gadd c (skey c e) &&
